@@ -144,11 +144,16 @@ fn per_state_j<const N: usize, const JN: usize>(sys: &MapSys<Kx, Vx, N>, path: &
                             r.set(*vv);
                         }
                     }
-                    // C18: the unchecked variant behaves exactly like the safe one (contract holds)
-                    let u = call::<N, JN>(&mut b.bx.c, &keys, &pos_probes, by_q, true, None);
-                    cx.check(C18, !u.panicked && u.addrs == out.addrs, || {
-                        format!("get_disjoint_unchecked_mut({keys:?}) gives {:x?} (panicked: {}), get_disjoint_mut gives {:x?}", u.addrs, u.panicked, out.addrs)
-                    });
+                    // C18: the unchecked variant behaves exactly like the safe one (contract holds).
+                    // Only called when C18 is being judged, and its ledger events are kept apart.
+                    if cx.enabled & C18 != 0 {
+                        flush_ledger(cx, C13 | C02, "get_disjoint_mut");
+                        let u = call::<N, JN>(&mut b.bx.c, &keys, &pos_probes, by_q, true, None);
+                        cx.check(C18, !u.panicked && u.addrs == out.addrs, || {
+                            format!("get_disjoint_unchecked_mut({keys:?}) gives {:x?} (panicked: {}), get_disjoint_mut gives {:x?}", u.addrs, u.panicked, out.addrs)
+                        });
+                        flush_ledger(cx, C18, "get_disjoint_unchecked_mut");
+                    }
                     let after = entries_of(&b.bx.c);
                     cx.check(C13 | C18, after == before, || "the map changed (beyond the restored writes)".to_string());
                 }
